@@ -12,7 +12,8 @@ Line protocol of C07 (see harness/c07_test.go).
       <hasCommit> <commitHeight> <commitBlockHash> <commitBasicOk> <nsig> {<flag> <addr> <signerKey> <good>}*
       <valset> <valset>                       -- header validator set, trusted validator set
       valset := <isNil> <propConv> <propOk> <hash hex> <n> {<addr> <key> <power> <pk> <addrOk>}*
-  vfy <now> <rev> <h> <proofPresent> <proofDecodes> <rootOfProof hex> <genuine>
+  vfy <now> <rev> <h> <proofPresent> <proofDecodes> <rootOfProof hex> <genuine>      -- VerifyPacketCommitment
+  vfa <now> <rev> <h> <proofPresent> <proofDecodes> <rootOfProof hex> <genuine>      -- VerifyPacketAcknowledgement
 
 Outputs: `ok <dump>` / `rej` for create (rejected = the configuration does not pass `ClientState.Validate`) and upd,
 `ok` / `rej` for vfy; `bad-op` when there is no client.
@@ -158,14 +159,18 @@ def step (st : St) (line : String) : St × String :=
       | .ok c' => ({ c := some c' }, "ok " ++ dump c')
       | _ => (st, "rej")
     | _, _ => (st, "bad-op")
-  | ["vfy", now, rev, h, present, decodes, root, genuine] =>
+  | [op, now, rev, h, present, decodes, root, genuine] =>
+    if op ≠ "vfy" ∧ op ≠ "vfa" then (st, "bad-op") else
     match st.c, parseInt? now, rev.toNat?, h.toNat?, bool? present, bool? decodes, unhex root, bool? genuine with
     | some c, some now, some rev, some h, some present, some decodes, some root, some genuine =>
       let env : Env := {
         valsHash := fun _ => [], headerHash := fun _ => [], sigValid := fun _ _ _ _ => false,
         proofDecodes := fun _ => decodes,
         membership := fun r _ _ _ => genuine && r == root }
-      match verifyMembership env c ⟨rev, h⟩ (if present then some [] else none) [] [] now with
+      let pf := if present then some [] else none
+      let res := if op = "vfy" then verifyPacketCommitment env c ⟨rev, h⟩ pf [] [] now
+                 else verifyPacketAcknowledgement env c ⟨rev, h⟩ pf [] [] now
+      match res with
       | .ok _ => (st, "ok")
       | _ => (st, "rej")
     | _, _, _, _, _, _, _, _ => (st, "bad-op")
